@@ -5,10 +5,6 @@
 // result: one line per transition whose real outcome is not exactly `after`:
 //   {"i": n, "actual": [{s,e,v}] } or {"i": n, "panic": "..."}; last line {"done": true, "n": N, "exact": M}
 
-#[allow(dead_code)]
-#[path = "/repo/crates/lexgen/src/range_map.rs"]
-mod range_map;
-
 use range_map::{Range, RangeMap};
 use serde_json::{json, Value};
 use std::io::{BufRead, BufReader, BufWriter, Write};
